@@ -6,7 +6,89 @@ from vk.pyvc.run import verify
 def prove(run):
     verify(run, M.REL, M.switch_direction, fingerprint={})
     verify(run, M.REL, M.canonicalise, contracts=M.CALLEES_CANO, fingerprint=M.FINGERPRINT_CANO,
-           property_fields={"function": "canonicalise"})
+           property_fields={"function": "canonicalise"}, replay=replay_canonicalise)
     run.trusted += ["assumed contract of MatrixProduct._push_cano (centre moves by one site in the sweep direction, dense object unchanged): "
                     "its body is numeric (svd_qn QR + _update_ms) and is covered by the bounded contracts below and by C18",
                     "ghost field `den` = represented dense object"]
+
+
+def prove_compress_slice(run):
+    """which entry of a per-bond limit list applies to the bond cut at site idx (mechanical slice of the sweep loop of compress)"""
+    import ast
+    from vk.pyvc import engine as E
+    from vk.pyvc import run as R
+    from vk.pyvc.slice import make_slice, SliceError, loop_body
+    try:
+        fn = R.index().find(M.REL, "MatrixProduct.compress")
+        k = M.compress_limit_stmt(loop_body(fn, M.SLICE_COMPRESS["body_of_loop"]))
+        sl = make_slice(fn, M.SLICE_COMPRESS["name"], M.SLICE_COMPRESS["body_of_loop"], (k, k), M.SLICE_COMPRESS["params"], "m_trunc")
+    except (E.VCError, SliceError, ValueError, StopIteration) as e:
+        run.oblig("extract:compress__limit_of_cut_bond", "MatrixProduct.compress", "A(pyvc)", "undecided", detail=f"slice could not be extracted (stale contract): {e}")
+        return
+    run.extra.setdefault("pyvc_slices", {})["compress__limit_of_cut_bond"] = {
+        "source": M.REL, "description": "the statement `if temp_m_trunc is None: ... else: ...` of the body of `for idx in self.iter_idx_list(full=False)` in "
+                                        "MatrixProduct.compress, with self.to_right, len(sigma) and the configured limit bound to parameters; returns m_trunc",
+        "extracted_text": ast.unparse(sl)}
+    for c in (M.compress_limit_list, M.compress_limit_int, M.compress_limit_none):
+        R.verify_node(run, M.REL, c, sl, fingerprint={}, replay=replay_compress_limit)
+
+
+def replay_compress_limit(cex, locals_, ob):
+    """native replay: a random chain whose exact Schmidt ranks are used as per-bond limits must survive compress in the direction of the counter-model"""
+    import numpy as np
+    from vk.specs import chain as S
+    from props.C04 import schmidt_ranks
+    from renormalizer.utils import CompressConfig, CompressCriteria
+    to_right = bool(cex.get("to_right", False))
+    model, sectors = S.model_zoo("spinqn", 5)
+    rng = np.random.default_rng(7)
+    a = S.random_mps(model, sectors[len(sectors) // 2], 6, rng)
+    if a is None:
+        return False, "no state"
+    a.canonicalise().canonicalise()
+    if a.to_right != to_right:
+        a.canonicalise()
+    v0 = S.dense(a)
+    limits = [1] + schmidt_ranks(v0, [b.nbas for b in model.basis], False) + [1]
+    a.compress_config = CompressConfig(CompressCriteria.fixed, max_bonddim=10 ** 4)
+    a.compress(temp_m_trunc=list(limits))
+    err = float(np.abs(S.dense(a) - v0).max())
+    return err > 1e-10, {"to_right": to_right, "temp_m_trunc": limits, "bond_dims_after": [int(x) for x in a.bond_dims], "error": err,
+                         "how": "vk.specs.chain.model_zoo('spinqn', 5), random_mps(seed 7), limits = exact Schmidt ranks, compress(temp_m_trunc=limits)"}
+
+
+def replay_canonicalise(cex, locals_, ob):
+    """native replay of a counter-model (site_num, qnidx, to_right, stop_idx) of the sweep contract on a real chain"""
+    import numpy as np
+    from vk.specs import chain as S
+    me = cex.get("self") or {}
+    n, to_right, stop = int(me.get("site_num", 0)), bool(me.get("to_right", True)), cex.get("stop_idx")
+    if not (1 <= n <= 10):
+        return False, f"site_num={n} outside the replay range 1..10"
+    model, sectors = S.model_zoo("spinqn", n)
+    a = S.random_mps(model, sectors[len(sectors) // 2], 4, np.random.default_rng(11))
+    if a is None:
+        return False, "no state"
+    a.move_qnidx(0 if to_right else n - 1)
+    a.to_right = to_right
+    v0 = S.dense(a)
+    start = a.qnidx
+    try:
+        a.canonicalise(stop_idx=stop) if stop is not None else a.canonicalise()
+    except Exception as e:
+        return True, {"site_num": n, "to_right": to_right, "stop_idx": stop, "raised": repr(e)}
+    bad = []
+    if np.abs(S.dense(a) - v0).max() > 1e-10:
+        bad.append("dense changed")
+    if stop is not None:
+        if a.qnidx != stop:
+            bad.append(f"qnidx={a.qnidx} != stop_idx")
+        flip = stop != start and stop == (n - 1 if to_right else 0)
+        if a.to_right != (to_right != flip):
+            bad.append(f"to_right={a.to_right} after the sweep (flip expected: {flip})")
+    elif n >= 2 and (a.to_right == to_right or a.qnidx != (n - 1 if to_right else 0)):
+        bad.append(f"full sweep ended with qnidx={a.qnidx} to_right={a.to_right}")
+    if S.qnv_violations(a):
+        bad.append("labels invalid")
+    return bool(bad), {"site_num": n, "to_right": to_right, "stop_idx": stop, "observed": bad, "qnidx_after": int(a.qnidx), "to_right_after": bool(a.to_right),
+                       "how": "vk.specs.chain.model_zoo('spinqn', n), random_mps(seed 11), centre moved to the sweep start, canonicalise(stop_idx)"}
